@@ -58,6 +58,9 @@ def settings(tier):
                             if mode == "window" and (hist != "all" or (tier == "quick" and fold == "late")):
                                 continue
                             out.append((L, delay, fold, hist, script, mode))
+    # the transmitter was first handed to an environment with a LONGER latency (45 s), then to the one under test
+    for L in (0, 30):
+        out.append((L, 0, "whole", "all", 0, "features:shared"))
     return out
 
 
@@ -98,6 +101,9 @@ def run_stream(setting, nbars, bits, extra, table, table_next, case_of):
                      warmup=(G[1] - G[0]) if hist == "warm1" else None)
     tr.add_events(evs)
     recf = None
+    if mode.endswith(":shared"):
+        mode = mode.split(":")[0]
+        TradingEnv(BoxPortfolio(cs, -1.0, 1.5), transmitter=tr, latency=45, initial_cash=4096.0)
     if mode == "features":
         recf = RecFeature()
         state = [FeaturePrices(cs), FeaturePortfolioWeight(cs, -1.0, 1.5), recf]
